@@ -82,7 +82,7 @@ Definition step (fl : flags) (st : state) (o : op) : state :=
   | OSubset s keep => new (t <- top s ;; subset fl h t keep)
   | OJoin s s2 k => new (t <- top s ;; u <- top s2 ;; join fl h t u k)
   | OPickle s => new (t <- top s ;; Some (pickle h t))
-  | ODataFrame s => new (t <- top s ;; v <- abs h t ;; build_from h (df_round v))
+  | ODataFrame s => new (t <- top s ;; v <- abs h t ;; build_from h (df_round (f_df_serial fl) v))
   | OH5 s => new (t <- top s ;; v <- abs h t ;; build_from h (h5_round (f_h5_full fl) v))
   | OPdb s ter => new (t <- top s ;; recs <- pdb_write fl ter h t ;; build_from h (pdb_read recs))
   end.
@@ -177,10 +177,10 @@ Definition run_case (c : flags * list op) : jv := observe (fst c) (run (fst c) (
 (* ------------------------------------------------------------------ helpers of the correspondence run *)
 Definition flag_list (f : flags) : list bool :=
   [f_cid_copy f; f_cid_join f; f_cid_subset f; f_repoint f; f_resseq0 f; f_remove_id f; f_del_bonds f; f_hash f;
-   f_conect_num f; f_conect_del f; f_h5_full f].
+   f_conect_num f; f_conect_del f; f_h5_full f; f_df_serial f].
 Definition flags_of (l : list bool) : flags :=
   let g := fun i => nth i l false in
-  Build_flags (g 0) (g 1) (g 2) (g 3) (g 4) (g 5) (g 6) (g 7) (g 8) (g 9) (g 10).
+  Build_flags (g 0) (g 1) (g 2) (g 3) (g 4) (g 5) (g 6) (g 7) (g 8) (g 9) (g 10) (g 11).
 Definition flag_repair (i : nat) (f : flags) : flags := flags_of (set_nth i true (flag_list f)).
 
 (* 0: the implementation's observation equals the all-repaired model; 1: it equals the model with
